@@ -255,7 +255,46 @@ func NormalizeFrequencies(freqs []int, alphabet []int, totalFreq, scale int) (in
 		}
 	}
 
-	freqs[idxMax] = max(freqs[idxMax]-delta, 1)
+	if delta == 0 {
+		return alphabetSize, nil
+	}
+
+	if inc > 0 {
+		// Remaining deficit: give it to the max frequency
+		freqs[idxMax] += delta
+		return alphabetSize, nil
+	}
+
+	if freqs[idxMax] > delta {
+		// Remaining surplus: take it from the max frequency
+		freqs[idxMax] -= delta
+		return alphabetSize, nil
+	}
+
+	// The max frequency cannot absorb the surplus: take it from
+	// all frequencies greater than 1 (never zero out a frequency)
+	for delta > 0 {
+		adjustments := 0
+
+		for _, idx := range alphabet[0:alphabetSize] {
+			if freqs[idx] <= 1 {
+				continue
+			}
+
+			freqs[idx]--
+			adjustments++
+			delta--
+
+			if delta == 0 {
+				break
+			}
+		}
+
+		if adjustments == 0 {
+			break
+		}
+	}
+
 	return alphabetSize, nil
 }
 
